@@ -96,6 +96,13 @@ class Saving(BaseSaving):
         self :
             Reference to self.
         """
+        # The copy of the cost is brought up to date here such that changes to the
+        # parameters of `baseline_cost` after construction, e.g. by
+        # `set_params(baseline_cost__<name>=...)`, reach it. It is updated in place:
+        # `optimised_cost` is a public attribute that callers may hold on to.
+        up_to_date_params = self.baseline_cost.clone().get_params(deep=False)
+        up_to_date_params["param"] = None
+        self.optimised_cost.set_params(**up_to_date_params)
         self.baseline_cost.fit(X)
         self.optimised_cost.fit(X)
         return self
